@@ -339,6 +339,8 @@ public:
     virtual void expr_comma() = 0;                             // 2 expr
     virtual void expr_dot(const char*) = 0;                    // 1 expr
     virtual void expr_deadlock() = 0;
+    /** The parser discarded a quantifier between its begin and its end call (recovery from a syntax error). */
+    virtual void expr_quantifier_abandon() {}
     virtual void expr_forall_begin(const char* name) = 0;
     virtual void expr_forall_end(const char* name) = 0;
     virtual void expr_exists_begin(const char* name) = 0;
